@@ -327,6 +327,8 @@ def digest_last_piece(ctx, prog):
         if not callee_of(t).endswith("clone_from_slice") and not callee_of(t).endswith("copy_from_slice"):
             continue
         d, s = (N(canon(strip(sy.operand(a)))) for a in t["args"][:2])
+        # `..n` is `0..n`
+        d, s = (re.sub(r"core::ops::RangeTo::RangeTo\{", "core::ops::Range::Range{0,", x) for x in (d, s))
         md = re.search(r"index_mut\(local:\w+\.blockhash([12]),core::ops::Range::Range\{(.*)\}\)$", d)
         ms = re.search(r"index\((C[01])\.blockhash,core::ops::Range::Range\{(.*)\}\)$", s)
         n += 1
